@@ -677,6 +677,12 @@ class Compiler:
       if not (isinstance(base, SE) and isinstance(base.typ, tuple) and base.typ[0] == "listref"):
         raise TranslationError("slice assignment on %r" % (base,))
       lists = base.typ[1]
+      if isinstance(val, SE) and isinstance(val.typ, tuple) and val.typ[0] == "listref" and val.typ[1] is lists:
+        self.op(lists, "assign_from", [base, val], want=0)       # from another list: one C-level copy
+        return
+      if isinstance(val, ST) and not val.items:
+        self.op(lists, "assign_from", [base, SK(0, 0)], want=0)   # lst[:] = () / []
+        return
       snap = val if isinstance(val, SSnap) else self.snapshot(val)
       cells = [SE(V(cv)) for cv in snap.cells][:lists.cells]
       while len(cells) < lists.cells:
@@ -1198,6 +1204,15 @@ class Compiler:
     elif isinstance(v, str):
       m = self.sc.add(M.MAttr(name, self.sc.strings.code(v)))
       m.typ = "str"
+    elif isinstance(v, list) and not v and getattr(self.sc, "default_lists", None) is not None:
+      # an empty list: one more list of the scenario's pool of python lists, existing from the start
+      lists = self.sc.default_lists
+      if len(lists.initial) >= lists.nlists:
+        return False
+      lists.initial.append([])
+      obj.attrs[attr] = SE(K(len(lists.initial)), ("listref", lists))
+      self.sc.auto_bound.append((obj.name, attr, lists.name, "list"))
+      return True
     else:
       return False
     obj.attrs[attr] = m
@@ -1703,6 +1718,11 @@ class Compiler:
     if cls == "dict":
       if name == "get":
         d = args[1] if len(args) > 1 else SK(NONE, None)
+        vt = self.sc.value_typ.get(target.name)
+        if isinstance(vt, tuple) and vt[0] == "listref":
+          if isinstance(d, ST) and not d.items:
+            d = SK(0, 0)              # an empty tuple / list as default: list number 0, the empty sequence
+          return self.op(target, "get_default", [args[0], d], typ=vt)
         return self.op(target, "get_default", [args[0], d])
       if name == "clear":
         return self.op(target, "clear", [], want=0)
